@@ -290,6 +290,16 @@ class ModelBase:
                 except Exception:
                     pass
             return r
+        if name == 'next' and a0 is not None:
+            # next(it[, default]): the first item
+            dflt = args[1] if len(args) > 1 else None
+            if a0.elts is not None and a0.ty in ('generator', 'list', 'tuple') and a0.elem is None:
+                if a0.elts:
+                    return a0.elts[0]
+                if dflt is not None:
+                    return dflt
+            el = self.iter_item(interp, st, a0, node, None)
+            return join(el, dflt) if dflt is not None else (el if el is not None else AV(deps=d))
         if name == 'id' and a0 is not None:
             return AV(ty='int', id_of=a0, deps=d)
         if name == 'enumerate':
